@@ -1041,3 +1041,815 @@ class Main(Unit):
 
 UNITS_C11 = [DeleteAll, DeleteOne, Main]
 UNITS = UNITS_C09 + UNITS_C10 + UNITS_C08 + UNITS_C11 + UNITS_C12 + UNITS_C05
+
+
+# =================================================================== directories of ANY size: per-file loops by invariants
+def dirn_fns():
+    return (z3.Int('dir_n'), z3.Function('dir_fname', z3.IntSort(), PyStr), z3.Function('dir_fdata', z3.IntSort(), ByteArr),
+            z3.Function('dir_flen', z3.IntSort(), z3.IntSort()))
+
+
+class DirN:
+    """a directory with a symbolic number n of top-level files (opaque names, arbitrary contents) + archive/ with a file"""
+
+    def __init__(self, ctx):
+        n, fname, fdata, flen = dirn_fns()
+        ctx.assume(n >= 0)
+        self.n = n
+        from pyvc.models import LazySeq
+        self.names = LazySeq(n, lambda j: mkstr([Opq(fname(zint(j)))]), 'dir_names')
+        self.subname = mkstr([Opq(z3.Const('subfile', PyStr))])
+
+    def content(self, j):
+        n, fname, fdata, flen = dirn_fns()
+        return SBytes(fdata(zint(j)), 0, flen(zint(j)), 'bytes')
+
+    def key(self, j):
+        return key_of(self.content(j))
+
+    def index_of_path(self, path):
+        return None
+
+    def path(self, j, root=ROOT):
+        n, fname, fdata, flen = dirn_fns()
+        return mkstr([Opq(ufun('path_join', PyStr, PyStr, PyStr)(lit(root), fname(zint(j))))])
+
+
+class FsEnvN(FsEnv):
+    def os_walk(self, it, path):
+        it.ctx.emit('fs', ('walk', path))
+        sub = mkstr([Opq(ufun('path_join', PyStr, PyStr, PyStr)(str_term(path), lit('archive')))])
+        return [(path, ['archive'], self.d.names), (sub, [], [self.d.subname])]
+
+    def open_read(self, it, path, mode):
+        ctx = it.ctx
+        t = str_term(path)
+        h = Handle(path, mode)
+        if z3.is_app(t) and t.decl().name() == 'path_join' and t.num_args() == 2 and z3.is_app(t.arg(1)) and \
+                t.arg(1).decl().name() == 'dir_fname':
+            j = t.arg(1).arg(0)
+            c = self.d.content(j)
+            ctx.assume(zint(c.ln) >= 0)
+            h.content = c
+            return h
+        return FsEnv.open_read(self, it, path, mode)
+
+
+class CGetFileListN(Contract):
+    """getFileList (proved in GetFileListN): the names that pass the filter, in sorted order - here the directory's own
+    listing stands for that sorted list (names are opaque, their order arbitrary)"""
+    target = PM + "getFileList"
+
+    def model(self, it, path, extension, rev=False):
+        it.ctx.emit('fs', ('walk', path))
+        return (path, it.ctx.env.d.names)
+
+
+def no_mutation(ctx):
+    return [e for e in ctx.fs if e[0] not in ('open_r', 'walk')] == []
+
+
+class _ModeInv(LoopInv):
+    """stdout == OUT(i): OUT(0) = what was printed before the loop; OUT(i+1) = OUT(i) ++ contribution of file i"""
+    tag = None
+    modifies_locals = ()
+
+    def out_fn(self, ctx):
+        return z3.Function('out_' + self.tag, z3.IntSort(), Val)
+
+    def base(self, it, fr):
+        ctx = it.ctx
+        if not ctx.ghost.get('base_' + self.tag):
+            ctx.ghost['base_' + self.tag] = True
+            ctx.assume(self.out_fn(ctx)(0) == list_term(list(ctx.stdout)))
+            self.base_extra(it, fr)
+
+    def base_extra(self, it, fr):
+        pass
+
+    def heap_targets(self, it, fr):
+        return []
+
+    def havoc(self, it, fr, i):
+        self.base(it, fr)
+        ctx = it.ctx
+        ctx.stdout[:] = [Chunk(self.out_fn(ctx)(zint(i)))]
+        ctx.stderr[:] = []
+        self.havoc_extra(it, fr, i)
+
+    def havoc_extra(self, it, fr, i):
+        pass
+
+    def inv(self, it, fr, i):
+        self.base(it, fr)
+        ctx = it.ctx
+        if not no_mutation(ctx):
+            return False
+        return And(list_term(list(ctx.stdout)) == self.out_fn(ctx)(zint(i)), self.inv_extra(it, fr, i))
+
+    def inv_extra(self, it, fr, i):
+        return True
+
+    def unfold(self, it, fr, i):
+        ctx = it.ctx
+        OUT = self.out_fn(ctx)
+        contrib = self.contribution(it, fr, i)
+        t = OUT(zint(i))
+        for ev in contrib:
+            t = v_snoc(t, val_term(ev))
+        ctx.assume(OUT(zint(i) + 1) == t)
+        self.unfold_extra(it, fr, i)
+
+    def unfold_extra(self, it, fr, i):
+        pass
+
+
+def file_outcome(ctx, k):
+    """decided outcome of one file on this path: 'doc' | 'none' | 'error' (forks when undetermined)"""
+    if not branch(hdr_ok(k)):
+        return 'none'
+    if not branch(sel(k)):
+        return 'none'
+    if not branch(decodes(k)):
+        return 'error'
+    return 'doc'
+
+
+class _ModeUnitN(Unit):
+    io_faults = False
+    max_paths = 20000
+
+    def inputs(self, S):
+        self._S = S
+        return self.mode_inputs(S)
+
+    def setup_ctx(self, ctx):
+        d = DirN(ctx)
+        ctx.env = FsEnvN(d)
+        self._d = d
+
+    env = None
+
+    def pure(self, P):
+        P.prove(no_mutation(P.ctx), "the directory tree is left untouched (no remove / write / rename)")
+
+
+class CountInv(_ModeInv):
+    func = PM + "printPELCount"
+    loop = 0
+    tag = 'count'
+    modifies_locals = ('file', 'fd', 'data', 'stream', 'out', 'ret', 'ph', 'uh', 'count', 'e')
+
+    def cnt(self):
+        return z3.Function('count_upto', z3.IntSort(), z3.IntSort())
+
+    def base_extra(self, it, fr):
+        it.ctx.assume(self.cnt()(0) == 0)
+
+    def havoc_extra(self, it, fr, i):
+        fr.locals['count'] = self.cnt()(zint(i))
+
+    def inv_extra(self, it, fr, i):
+        return Eq(fr.locals['count'], self.cnt()(zint(i)))
+
+    def contribution(self, it, fr, i):
+        return []
+
+    def unfold_extra(self, it, fr, i):
+        k = it.ctx.env.d.key(i)
+        c = z3.And(ufun('pel_ph_readable', Val, z3.BoolSort())(k), ph_ok(k), ufun('pel_uh_readable', Val, z3.BoolSort())(k),
+                   ufun('pel_uh_ok', Val, z3.BoolSort())(k), sel(k))
+        it.ctx.assume(self.cnt()(zint(i) + 1) == self.cnt()(zint(i)) + z3.If(c, 1, 0))
+
+
+class CountN(_ModeUnitN):
+    prop = "C08"
+    name = "printPELCount (-n), any number of files"
+    target = PM + "printPELCount"
+    contracts = DECODER_CONTRACTS + [CGetFileListN]
+    invariants = [CountInv]
+
+    def mode_inputs(self, S):
+        return dict(path=ROOT, config=mk_config(S))
+
+    def check(self, P, inp, old, out):
+        if not P.symbolic:
+            return
+        ctx = P.ctx
+        P.prove(out.returned, "the mode never fails, whatever the files contain")
+        if not out.returned:
+            return
+        n = dirn_fns()[0]
+        cnt = z3.Function('count_upto', z3.IntSort(), z3.IntSort())(n)
+        inv = list(ctx.invariants.values())[0]
+        want = v_snoc(inv.out_fn(ctx)(n), val_term((cat('{\n    "Number of PELs found": ', fmt(cnt, 'd'), '\n}'), '\n')))
+        P.prove(list_term(list(ctx.stdout)) == want,
+                "stdout == one JSON object with count_upto(n): the number of files whose two headers are valid and that are selected")
+        P.prove(inv.out_fn(ctx)(0) == v_nil(), "nothing is printed before the count")
+        self.pure(P)
+
+
+UNITS_N = [CountN]
+
+
+class AllInv(_ModeInv):
+    func = PM + "extractAllPELsData"
+    loop = 0
+    tag = 'all'
+    modifies_locals = ('file', 'fd', 'data', 'stream', '_', 'json_string', 'firstPELPrinted', 'e')
+
+    def fp(self):
+        return z3.Function('first_printed', z3.IntSort(), z3.BoolSort())
+
+    def base_extra(self, it, fr):
+        it.ctx.assume(self.fp()(0) == z3.BoolVal(False))
+
+    def havoc_extra(self, it, fr, i):
+        fr.locals['firstPELPrinted'] = self.fp()(zint(i))
+
+    def inv_extra(self, it, fr, i):
+        return Iff(truth(fr.locals['firstPELPrinted']), self.fp()(zint(i)))
+
+    def contribution(self, it, fr, i):
+        ctx = it.ctx
+        k = ctx.env.d.key(i)
+        oc = file_outcome(ctx, k)
+        hexm = branch(truth(field(fr.locals['config'], 'hex')))
+        self._printed = False
+        if oc != 'doc':
+            return []
+        if hexm:
+            return [('hexdump-of', k)]
+        self._printed = True
+        ev = []
+        if branch(self.fp()(zint(i))):
+            ev.append((",", '\n'))
+        ev.append((doc_text(k), ""))
+        return ev
+
+    def unfold_extra(self, it, fr, i):
+        fp = self.fp()
+        it.ctx.assume(fp(zint(i) + 1) == (z3.Or(fp(zint(i)), z3.BoolVal(True)) if self._printed else fp(zint(i))))
+
+
+class AllPelsN(_ModeUnitN):
+    prop = "C09"
+    name = "extractAllPELsData (-a), any number of files"
+    target = PM + "extractAllPELsData"
+    contracts = DECODER_CONTRACTS + [CGetFileListN]
+    invariants = [AllInv]
+
+    def mode_inputs(self, S):
+        return dict(path=ROOT, config=mk_config(S))
+
+    def check(self, P, inp, old, out):
+        if not P.symbolic:
+            return
+        ctx = P.ctx
+        P.prove(out.returned, "the mode never fails, whatever the files contain")
+        if not out.returned:
+            return
+        n = dirn_fns()[0]
+        inv = list(ctx.invariants.values())[0]
+        OUT, FP = inv.out_fn(ctx), inv.fp()
+        hexm = branch(truth(field(inp['config'], 'hex')))
+        t = OUT(n)
+        if not hexm:
+            if branch(FP(n)):
+                t = v_snoc(t, val_term(("", '\n')))
+            t = v_snoc(t, val_term(("]", '\n')))
+        P.prove(list_term(list(ctx.stdout)) == t,
+                "stdout == opening + OUT(n) + closing, where OUT adds for each selected, decodable file in list order its document "
+                "(preceded by ',' iff a document was printed before) and nothing for any other file")
+        P.prove(OUT(0) == (v_nil() if hexm else list_term([("[", '\n')])), "the array is opened before the first file")
+        self.pure(P)
+
+
+class _SummaryInv(_ModeInv):
+    """modes that collect summaries into final_summary: dict == SUM(i)"""
+
+    def sum_fn(self):
+        return z3.Function('summ_' + self.tag, z3.IntSort(), Val)
+
+    def base_extra(self, it, fr):
+        from pyvc.seq import dict_term
+        it.ctx.assume(self.sum_fn()(0) == dict_term(fr.locals['final_summary']))
+
+    def havoc_extra(self, it, fr, i):
+        d = fr.locals['final_summary']
+        d.sym[:] = []
+        d.base_term = self.sum_fn()(zint(i))
+
+    def inv_extra(self, it, fr, i):
+        from pyvc.seq import dict_term
+        return dict_term(fr.locals['final_summary']) == self.sum_fn()(zint(i))
+
+    def heap_targets(self, it, fr):
+        return [fr.locals['final_summary']]
+
+    def matches(self, it, fr, i, k):
+        return True
+
+    def contribution(self, it, fr, i):
+        ctx = it.ctx
+        k = ctx.env.d.key(i)
+        self._add = None
+        if not branch(hdr_ok(k)) or not branch(sel(k)) or not branch(ufun('pel_summary_decodes', Val, z3.BoolSort())(k)):
+            return []
+        if not self.matches(it, fr, i, k):
+            return []
+        if branch(truth(field(fr.locals['config'], 'hex'))):
+            return [('hexdump-of', k)]
+        self._add = k
+        return []
+
+    def unfold_extra(self, it, fr, i):
+        S = self.sum_fn()
+        t = S(zint(i))
+        if self._add is not None:
+            k = self._add
+            t = ufun('v_dsnoc', Val, PyStr, Val, Val)(t, ufun('pel_eid0x', Val, PyStr)(k), val_term(summary_of(k)))
+        it.ctx.assume(S(zint(i) + 1) == t)
+
+
+class ListInv(_SummaryInv):
+    func = PM + "listOption"
+    loop = 0
+    tag = 'list'
+    modifies_locals = ('file', 'eid', 'summary')
+
+
+class CExtractAndSummarize(Contract):
+    """extractAndSummarizePEL: inlined in the bounded unit; here by contract: (eid, summary) for a selected, decodable
+    file (hex dump printed instead when --hex), ('', '') otherwise; decode errors go to stderr"""
+    target = PM + "extractAndSummarizePEL"
+
+    def model(self, it, file, config):
+        ctx = it.ctx
+        h = ctx.env.open_read(it, file, 'rb')
+        ctx.emit('fs', ('open_r', file))
+        k = key_of(h.content)
+        if not ctx.decide(hdr_ok(k)):
+            return ("", "")
+        if not ctx.decide(sel(k)):
+            return ("", "")
+        if not ctx.decide(ufun('pel_summary_decodes', Val, z3.BoolSort())(k)):
+            ctx.emit('stderr', ('decode error', '\n'))
+            return ("", "")
+        if truthy_(ctx, field(config, 'hex')):
+            ctx.emit('stdout', ('hexdump-of', k))
+            return ("", "")
+        e = mkstr([Opq(ufun('pel_eid0x', Val, PyStr)(k))])
+        ctx.assume(ufun('slen', PyStr, z3.IntSort())(str_term(e)) > 0)
+        return (e, summary_of(k))
+
+
+class ListN(_ModeUnitN):
+    prop = "C09"
+    name = "listOption (-l), any number of files"
+    target = PM + "listOption"
+    contracts = DECODER_CONTRACTS + [CGetFileListN, CExtractAndSummarize]
+    invariants = [ListInv]
+
+    def mode_inputs(self, S):
+        return dict(path=ROOT, config=mk_config(S))
+
+    def check(self, P, inp, old, out):
+        if not P.symbolic:
+            return
+        ctx = P.ctx
+        P.prove(out.returned, "the mode never fails, whatever the files contain")
+        if not out.returned:
+            return
+        n = dirn_fns()[0]
+        inv = list(ctx.invariants.values())[0]
+        OUT, SUM = inv.out_fn(ctx), inv.sum_fn()
+        if branch(truth(field(inp['config'], 'hex'))):
+            P.prove(list_term(list(ctx.stdout)) == OUT(n), "--hex: the delimited hex dumps of the selected files, in list order")
+        else:
+            evs = list(ctx.stdout)
+            P.prove(len(evs) >= 1 and isinstance(evs[-1][0], DumpedStr), "the document is printed last")
+            if evs and isinstance(evs[-1][0], DumpedStr):
+                from pyvc.seq import dict_term
+                P.prove(dict_term(evs[-1][0].value) == SUM(n),
+                        "the document == SUM(n): one entry per selected, decodable file, in list order, keyed by entry id")
+                P.prove(list_term(evs[:-1]) == OUT(n), "nothing else is printed (OUT adds nothing without --hex)")
+        P.prove(OUT(0) == v_nil() and SUM(0) == ufun('v_dnil', Val)(), "nothing is printed or collected before the first file")
+        self.pure(P)
+
+
+class PlidInv(_SummaryInv):
+    func = PM + "parsePelFromPLID"
+    loop = 0
+    tag = 'plid'
+    modifies_locals = ('file', 'fd', 'data', 'stream', 'eid', 'summary', 'e')
+
+    def matches(self, it, fr, i, k):
+        return branch(_ops.str_contains(it.ctx, summary_of(k)["PLID"], fr.locals['plid']))
+
+
+class PlidN(_ModeUnitN):
+    prop = "C10"
+    name = "parsePelFromPLID (--plid), any number of files"
+    target = PM + "parsePelFromPLID"
+    contracts = DECODER_CONTRACTS + [CGetFileListN, CProcessId]
+    invariants = [PlidInv]
+
+    def mode_inputs(self, S):
+        return dict(path=ROOT, config=mk_config(S, plid=S.opaque_str("plid_arg")))
+
+    def check(self, P, inp, old, out):
+        if not P.symbolic:
+            return
+        ctx = P.ctx
+        if not out.returned:
+            P.prove(out.exc_class is SystemExit and len(ctx.stdout) == 0, "fails only with SystemExit for an invalid id, printing nothing")
+            return
+        n = dirn_fns()[0]
+        inv = list(ctx.invariants.values())[0]
+        OUT, SUM = inv.out_fn(ctx), inv.sum_fn()
+        if branch(truth(field(inp['config'], 'hex'))):
+            P.prove(list_term(list(ctx.stdout)) == OUT(n), "--hex: exactly the matching files are dumped, in list order")
+        else:
+            evs = list(ctx.stdout)
+            P.prove(len(evs) >= 1 and isinstance(evs[-1][0], DumpedStr), "the document is printed last")
+            if evs and isinstance(evs[-1][0], DumpedStr):
+                from pyvc.seq import dict_term
+                P.prove(dict_term(evs[-1][0].value) == SUM(n),
+                        "listed == exactly the selected, decodable files whose displayed platform log id contains the normalised id")
+        self.pure(P)
+
+
+class SrcInv(_SummaryInv):
+    func = PM + "parsePelFromSRCID"
+    loop = 0
+    tag = 'src'
+    modifies_locals = ('file', 'fd', 'data', 'stream', 'eid', 'summary', 'e')
+
+    def matches(self, it, fr, i, k):
+        c = fr.locals['config']
+        src = field(c, 'src')
+        if src is not None:
+            return branch(_ops.str_contains(it.ctx, summary_of(k)["SRC"], src))
+        excl = fr.locals['src_exclude_file_data']
+        return not branch(_ops.str_contains(it.ctx, excl, summary_of(k)["SRC"]))
+
+
+class SrcN(_ModeUnitN):
+    prop = "C10"
+    name = "parsePelFromSRCID (--src / --src-exclude), any number of files"
+    target = PM + "parsePelFromSRCID"
+    contracts = DECODER_CONTRACTS + [CGetFileListN]
+    invariants = [SrcInv]
+    shards = 2
+
+    def mode_inputs(self, S):
+        if self.shard == 0:
+            a = S.opaque_str("src_arg")
+            S.assume(ufun('slen', PyStr, z3.IntSort())(str_term(a)) > 0)
+            return dict(path=ROOT, config=mk_config(S, src=a))
+        return dict(path=ROOT, config=mk_config(S, srcExcludeFile="/tmp/exclude.txt"))
+
+    def check(self, P, inp, old, out):
+        if not P.symbolic:
+            return
+        ctx = P.ctx
+        if not out.returned:
+            P.prove(out.exc_class is SystemExit and self.shard == 0, "fails only with SystemExit for an SRC longer than 32 characters")
+            return
+        n = dirn_fns()[0]
+        inv = list(ctx.invariants.values())[0]
+        OUT, SUM = inv.out_fn(ctx), inv.sum_fn()
+        if branch(truth(field(inp['config'], 'hex'))):
+            P.prove(list_term(list(ctx.stdout)) == OUT(n), "--hex: exactly the matching files are dumped, in list order")
+        else:
+            evs = list(ctx.stdout)
+            P.prove(len(evs) >= 1 and isinstance(evs[-1][0], DumpedStr), "the document is printed last")
+            if evs and isinstance(evs[-1][0], DumpedStr):
+                from pyvc.seq import dict_term
+                P.prove(dict_term(evs[-1][0].value) == SUM(n),
+                        "listed == exactly the selected files whose reference code contains S (resp. is not in the exclusion file)")
+        self.pure(P)
+
+
+UNITS_N = [CountN, AllPelsN, ListN, PlidN, SrcN]
+
+
+# ---- loops that stop at the first match (break): invariant "no earlier file matched"
+class _FirstMatchInv(LoopInv):
+    """for file in files: if not match: continue; <act>; break   -  invariant: nothing happened so far and no file
+    before i matches"""
+    tag = None
+    modifies_locals = ()
+
+    def m(self):
+        return z3.Function('match_' + self.tag, z3.IntSort(), z3.BoolSort())
+
+    def match_def(self, it, fr, i):
+        raise NotImplementedError
+
+    def heap_targets(self, it, fr):
+        return []
+
+    def havoc(self, it, fr, i):
+        ctx = it.ctx
+        # definitional: match(i) <=> the loop's own test on file i
+        ctx.assume(self.m()(zint(i)) == zbool2(self.match_def(it, fr, i)))
+        if 'foundID' in fr.locals:
+            fr.locals['foundID'] = False
+
+    def inv(self, it, fr, i):
+        ctx = it.ctx
+        k = z3.Int('k!fm')
+        quiet = len(ctx.stdout) == 0 and [e for e in ctx.fs if e[0] not in ('open_r', 'walk')] == []
+        if not quiet:
+            return False
+        fid = fr.locals.get('foundID', False)
+        return And(Not(truth(fid)) if not isinstance(fid, bool) else (not fid),
+                   z3.ForAll([k], z3.Implies(z3.And(k >= 0, k < zint(i)), z3.Not(self.m()(k)))))
+
+
+class IdInv(_FirstMatchInv):
+    func = PM + "parsePelFromID"
+    loop = 1
+    tag = 'id'
+    modifies_locals = ('file', 'foundID')
+
+    def match_def(self, it, fr, i):
+        return _ops.str_contains(it.ctx, it.ctx.env.d.names.elem(i), fr.locals['pelID'])
+
+
+class IdN(_ModeUnitN):
+    prop = "C10"
+    name = "parsePelFromID (--id), any number of files"
+    target = PM + "parsePelFromID"
+    contracts = DECODER_CONTRACTS + [CProcessId, CPrintFile]
+    invariants = [IdInv]
+
+    def mode_inputs(self, S):
+        return dict(path=ROOT, config=mk_config(S, pelID=S.opaque_str("id_arg")))
+
+    def check(self, P, inp, old, out):
+        if not P.symbolic:
+            return
+        ctx = P.ctx
+        if not out.returned:
+            P.prove(out.exc_class is SystemExit and len(ctx.stdout) == 0, "fails only with SystemExit for an invalid id")
+            return
+        n = dirn_fns()[0]
+        inv = list(ctx.invariants.values())[0]
+        m = inv.m()
+        k = z3.Int('k!idp')
+        how = ctx.ghost.get(IdInv.func + '#loop1.exit')
+        j = ctx.ghost.get(IdInv.func + '#loop1.exit_index')
+        if how == 'exhausted':
+            P.prove(Eq(list(ctx.stdout), [("PEL not found", '\n')]), "no top-level file name contains the id: 'PEL not found'")
+            P.prove(z3.ForAll([k], z3.Implies(z3.And(k >= 0, k < n), z3.Not(m(k)))), "indeed no name contains the id")
+        else:
+            P.prove(Eq(list(ctx.stdout), [('document-of-file', str_term(ctx.env.d.path(j)))]),
+                    "exactly one file is displayed: the first top-level file whose name contains the id")
+            P.prove(z3.And(m(zint(j)), z3.ForAll([k], z3.Implies(z3.And(k >= 0, k < zint(j)), z3.Not(m(k))))), "it matches and no earlier file does")
+        self.pure(P)
+
+
+class DelOneInv(_FirstMatchInv):
+    func = PM + "deletePELFromPELId"
+    loop = 1
+    tag = 'del'
+    modifies_locals = ('file', 'foundID')
+
+    def match_def(self, it, fr, i):
+        return _ops.str_contains(it.ctx, it.ctx.env.d.names.elem(i), fr.locals['pelID'])
+
+
+class DeleteOneN(_ModeUnitN):
+    prop = "C11"
+    name = "deletePELFromPELId (--delete), any number of files"
+    target = PM + "deletePELFromPELId"
+    contracts = [CProcessId]
+    invariants = [DelOneInv]
+
+    def mode_inputs(self, S):
+        return dict(path=ROOT, pelID=S.opaque_str("id_arg"))
+
+    def check(self, P, inp, old, out):
+        if not P.symbolic:
+            return
+        ctx = P.ctx
+        removed = [e[1] for e in ctx.fs if e[0] == 'remove']
+        if not out.returned:
+            P.prove(out.exc_class is SystemExit and removed == [], "an invalid id exits without removing anything")
+            return
+        n = dirn_fns()[0]
+        inv = list(ctx.invariants.values())[0]
+        m = inv.m()
+        k = z3.Int('k!dp')
+        how = ctx.ghost.get(DelOneInv.func + '#loop1.exit')
+        j = ctx.ghost.get(DelOneInv.func + '#loop1.exit_index')
+        if how == 'exhausted':
+            P.prove(removed == [] and Eq(list(ctx.stdout), [("PEL not found", '\n')]), "no name contains the id: nothing removed, 'PEL not found'")
+        else:
+            P.prove(Eq(removed, [ctx.env.d.path(j)]) and len(ctx.stdout) == 0,
+                    "exactly one file is removed: the first top-level file whose name contains the id")
+            P.prove(z3.And(m(zint(j)), z3.ForAll([k], z3.Implies(z3.And(k >= 0, k < zint(j)), z3.Not(m(k))))), "it matches and no earlier file does")
+        P.prove([e for e in ctx.fs if e[0] not in ('walk', 'remove', 'remove_ok')] == [], "nothing else is touched")
+
+
+class DelAllInv(LoopInv):
+    func = PM + "deleteAllPELs"
+    loop = 1
+    modifies_locals = ('file',)
+
+    def rm(self):
+        return z3.Function('removed_upto', z3.IntSort(), Val)
+
+    def heap_targets(self, it, fr):
+        return []
+
+    def havoc(self, it, fr, i):
+        ctx = it.ctx
+        if not ctx.ghost.get('da_base'):
+            ctx.ghost['da_base'] = True
+            ctx.assume(self.rm()(0) == v_nil())
+        ctx.fs[:] = [Chunk(self.rm()(zint(i)))]
+
+    def removes(self, ctx):
+        out = []
+        for e in ctx.fs:
+            if isinstance(e, Chunk):
+                out.append(e)
+            elif e[0] == 'remove':
+                out.append(e[1])
+            elif e[0] not in ('walk', 'remove_ok'):
+                return None
+        return out
+
+    def inv(self, it, fr, i):
+        ctx = it.ctx
+        if not ctx.ghost.get('da_base'):
+            ctx.ghost['da_base'] = True
+            ctx.assume(self.rm()(0) == v_nil())
+        r = self.removes(ctx)
+        if r is None:
+            return False
+        return list_term(r) == self.rm()(zint(i))
+
+    def unfold(self, it, fr, i):
+        ctx = it.ctx
+        p = ctx.env.d.path(i)
+        isf = ufun('fs_isfile', PyStr, z3.BoolSort())(str_term(p))
+        RM = self.rm()
+        ctx.assume(RM(zint(i) + 1) == z3.If(isf, v_snoc(RM(zint(i)), val_term(p)), RM(zint(i))))
+
+
+class DeleteAllN(_ModeUnitN):
+    prop = "C11"
+    name = "deleteAllPELs (--delete-all), any number of files"
+    target = PM + "deleteAllPELs"
+    contracts = []
+    invariants = [DelAllInv]
+
+    def mode_inputs(self, S):
+        return dict(path=ROOT)
+
+    def check(self, P, inp, old, out):
+        if not P.symbolic:
+            return
+        ctx = P.ctx
+        P.prove(out.returned, "returns")
+        inv = list(ctx.invariants.values())[0]
+        r = inv.removes(ctx)
+        P.prove(r is not None, "nothing but removals happens")
+        if r is not None:
+            P.prove(list_term(r) == inv.rm()(dirn_fns()[0]),
+                    "removed == REM(n): exactly the top-level entries that are regular files, in order; the sub-directory's file is never touched")
+
+
+class GflInv(LoopInv):
+    func = PM + "getFileList"
+    loop = 1
+    modifies_locals = ('file',)
+
+    def fl(self):
+        return z3.Function('filtered_upto', z3.IntSort(), Val)
+
+    def heap_targets(self, it, fr):
+        return [fr.locals['file_list']]
+
+    def base(self, ctx):
+        if not ctx.ghost.get('gfl_base'):
+            ctx.ghost['gfl_base'] = True
+            ctx.assume(self.fl()(0) == v_nil())
+
+    def havoc(self, it, fr, i):
+        self.base(it.ctx)
+        fr.locals['file_list'][:] = [Chunk(self.fl()(zint(i)))]
+
+    def inv(self, it, fr, i):
+        self.base(it.ctx)
+        return list_term(fr.locals['file_list']) == self.fl()(zint(i))
+
+    def unfold(self, it, fr, i):
+        ctx = it.ctx
+        nm = ctx.env.d.names.elem(i)
+        ext = fr.locals['extension']
+        FL = self.fl()
+        keep = True
+        if ext is not None and not (isinstance(ext, str) and ext == ''):
+            keep = Eq(mkstr([Opq(ufun('splitext_ext', PyStr, PyStr)(str_term(nm)))]), ext)
+        if branch(keep):
+            ctx.assume(FL(zint(i) + 1) == v_snoc(FL(zint(i)), val_term(nm)))
+        else:
+            ctx.assume(FL(zint(i) + 1) == FL(zint(i)))
+
+
+class CListSort(Contract):
+    """assumed (table B): list.sort(reverse=r) turns the list into sorted(list, reverse=r) - a function of the list"""
+    target = "__list_sort__"
+
+
+class GetFileListN(_ModeUnitN):
+    prop = "C08"
+    name = "getFileList, any number of files"
+    target = PM + "getFileList"
+    contracts = []
+    invariants = [GflInv]
+
+    def mode_inputs(self, S):
+        ext = S.choice("ext", [None, 'x'])
+        if ext is not None:
+            ext = S.opaque_str("ext_arg")
+            S.assume(ufun('slen', PyStr, z3.IntSort())(str_term(ext)) > 0)
+        return dict(path=ROOT, extension=ext, rev=S.bool("rev"))
+
+    def check(self, P, inp, old, out):
+        if not P.symbolic:
+            return
+        ctx = P.ctx
+        P.prove(out.returned, "returns")
+        if not out.returned:
+            return
+        root, lst = out.value
+        P.prove(root == ROOT, "the directory returned is the one asked for (top level only: the walk is left after its first step)")
+        inv = list(ctx.invariants.values())[0]
+        n = dirn_fns()[0]
+        want = ufun('spec_sorted', Val, z3.BoolSort(), Val)(inv.fl()(n), zbool2(truth(inp['rev'])))
+        P.prove(list_term(lst) == want,
+                "result == sorted(FILT(n), reverse=rev) where FILT keeps exactly the top-level names with the requested extension")
+        self.pure(P)
+
+
+UNITS_N = [CountN, AllPelsN, ListN, PlidN, SrcN, IdN, DeleteOneN, DeleteAllN, GetFileListN]
+
+
+class BmcInv(_FirstMatchInv):
+    func = PM + "parsePelFromBmcID"
+    loop = 1
+    tag = 'bmc'
+    modifies_locals = ('file', 'fd', 'data', 'stream', 'out', '_', 'ph', 'json_string', 'foundID', 'e')
+
+    def match_def(self, it, fr, i):
+        ctx = it.ctx
+        k = ctx.env.d.key(i)
+        idm = Eq(_ops.to_str(ctx, ufun('pel_obmc', Val, z3.IntSort())(k)), field(fr.locals['config'], 'bmcID'))
+        return z3.And(ufun('pel_ph_readable', Val, z3.BoolSort())(k), ph_ok(k), zbool2(idm),
+                      z3.Or(z3.Not(hdr_ok(k)), z3.Not(sel(k)), decodes(k)))
+
+
+class BmcN(_ModeUnitN):
+    prop = "C10"
+    name = "parsePelFromBmcID (--bmc-id), any number of files"
+    target = PM + "parsePelFromBmcID"
+    contracts = DECODER_CONTRACTS
+    invariants = [BmcInv]
+
+    def mode_inputs(self, S):
+        return dict(path=ROOT, config=mk_config(S, bmcID=S.opaque_str("bmc_arg")))
+
+    def check(self, P, inp, old, out):
+        if not P.symbolic:
+            return
+        ctx = P.ctx
+        P.prove(out.returned, "the mode never fails, whatever the files contain")
+        if not out.returned:
+            return
+        n = dirn_fns()[0]
+        inv = list(ctx.invariants.values())[0]
+        m = inv.m()
+        kk = z3.Int('k!bp')
+        how = ctx.ghost.get(BmcInv.func + '#loop1.exit')
+        j = ctx.ghost.get(BmcInv.func + '#loop1.exit_index')
+        if how == 'exhausted':
+            P.prove(Eq(list(ctx.stdout), [("PEL not found", '\n')]), "no file has that BMC event log id (or none of them can be decoded): 'PEL not found'")
+            P.prove(z3.ForAll([kk], z3.Implies(z3.And(kk >= 0, kk < n), z3.Not(m(kk)))), "indeed none matches")
+        else:
+            k = ctx.env.d.key(j)
+            hexm = branch(truth(field(inp['config'], 'hex')))
+            oc = file_outcome(ctx, k)
+            want = [] if oc != 'doc' else ([('hexdump-of', k)] if hexm else [(doc_text(k), '\n')])
+            P.prove(Eq(list(ctx.stdout), want), "the first file whose BMC event log id is N is displayed (if it is selected) - nothing else, never 'PEL not found'")
+            P.prove(z3.And(m(zint(j)), z3.ForAll([kk], z3.Implies(z3.And(kk >= 0, kk < zint(j)), z3.Not(m(kk))))), "it matches and no earlier file does")
+        self.pure(P)
+
+
+UNITS_N = [CountN, AllPelsN, ListN, PlidN, SrcN, IdN, BmcN, DeleteOneN, DeleteAllN, GetFileListN]
